@@ -62,9 +62,11 @@ vars == <<c>>
 
 \* ---- C08 cases: inputs with refs in every relative order, mints over 0..3 policies, withdrawals
 C08Cases ==
-    {[kind |-> "c08", refs |-> rs, many |-> mn, reds |-> rd, mints |-> ms, burnFirst |-> bf, wds |-> w] :
+    {[kind |-> "c08", refs |-> rs, many |-> mn, reds |-> rd, mints |-> ms, burnFirst |-> bf, wds |-> w, multi |-> mu] :
         rs \in {s \in [1..NInputs -> RefPool] : \A i, j \in 1..NInputs : i # j => s[i] # s[j]},
-        mn \in BOOLEAN, rd \in {"all", "some"}, ms \in {0, 1, 2, 3}, bf \in BOOLEAN, w \in {0, 1, 2}}
+        mn \in BOOLEAN, rd \in {"all", "some"}, ms \in {0, 1, 2, 3}, bf \in BOOLEAN, w \in {0, 1, 2},
+        \* one more mint block spanning two policies, with a redeemer; optionally a burn that cancels its lower / higher policy
+        mu \in {"none", "two", "cancel_low", "cancel_high"}}
 C08Prog(x) ==
     LET k == NInputs
         \* a `many` first block gets a second UTxO
@@ -72,10 +74,16 @@ C08Prog(x) ==
         inputs == [i \in 1..k |-> Inp(InputNames[i], x.many /\ i = 1, Sender, AdaE(Lit(1)), Absent,
                                       IF x.reds = "all" \/ i % 2 = 1 THEN RedOf(i) ELSE Absent, "Rec")]
         mintBlocks == [j \in 1..x.mints |-> [amount |-> PolicyExprs[j], redeemer |-> RedOf(10 + j)]]
+        \* H3 < H1 in byte order: PolicyExprs[3] is the lower policy of the two-policy block, PolicyExprs[1] the higher
+        twoBlock == IF x.multi = "none" THEN <<>>
+                    ELSE <<[amount |-> Op("add", TokE(Lit(4)), AnyA(Hex(H3), Str(<<100>>), Lit(2))), redeemer |-> RedOf(30)]>>
+        cancel == IF x.multi = "cancel_low" THEN <<[amount |-> AnyA(Hex(H3), Str(<<100>>), Lit(2)), redeemer |-> Absent]>>
+                  ELSE IF x.multi = "cancel_high" /\ ~(x.burnFirst /\ x.mints >= 1) /\ x.mints = 0
+                       THEN <<[amount |-> TokE(Lit(4)), redeemer |-> Absent]>> ELSE <<>>
         tx == [BaseTx EXCEPT !.inputs = inputs,
                              !.outputs = <<Out("", FALSE, Receiver, AdaE(Lit(2000000)), Absent)>>,
-                             !.mints = IF x.burnFirst /\ x.mints >= 1 THEN SubSeq(mintBlocks, 2, x.mints) ELSE mintBlocks,
-                             !.burns = IF x.burnFirst /\ x.mints >= 1 THEN <<mintBlocks[1]>> ELSE <<>>,
+                             !.mints = (IF x.burnFirst /\ x.mints >= 1 THEN SubSeq(mintBlocks, 2, x.mints) ELSE mintBlocks) \o twoBlock,
+                             !.burns = (IF x.burnFirst /\ x.mints >= 1 THEN <<mintBlocks[1]>> ELSE <<>>) \o cancel,
                              !.withdrawals = SubSeq(<<[from |-> Id("party", "StakeOne", "stakeone"), amount |-> Lit(5), redeemer |-> RedOf(20)],
                                                       [from |-> Id("party", "StakeTwo", "staketwo"), amount |-> Lit(6), redeemer |-> RedOf(21)]>>, 1, x.wds)]
         base == EnvOf(1)
@@ -139,7 +147,8 @@ Init == c \in (IF Mode = "c08" THEN C08Cases
 Next == UNCHANGED c
 
 Built == IF c.kind = "c08" THEN C08Prog(c) ELSE IF c.kind = "c09" THEN C09Prog(c, 1) ELSE C10Prog(c.fs)
-OracleDefined == DenoteTx(Built.prog, Built.env).k \in {"tx", "error"}
+\* (c08: two guarded blocks may claim one policy, which the denotation leaves open)
+OracleDefined == DenoteTx(Built.prog, Built.env).k \in (IF c.kind = "c08" THEN {"tx", "error", "unspec"} ELSE {"tx", "error"})
 EmitCase == PrintT(<<"CASE", ToJson([prog |-> Built.prog, env |-> Built.env, slot |-> c.kind, envId |-> 1,
                                     expect |-> DenoteTx(Built.prog, Built.env).k, meta |-> c])>>)
 =============================================================================
